@@ -706,6 +706,19 @@ fn w_sampled_short() -> bool {
     println!("sampled function declaring 1000 samples with 1 byte of data, applied at 0.9 -> {:?}", short(res));
     false
 }
+/// known finding (C15): colour spaces with a tint function cannot be written back
+fn w_colorspace_function_write() -> bool {
+    use pdf::object::*;
+    let mut bad = false;
+    for src in ["[/Separation /Spot /DeviceRGB << /FunctionType 2 /Domain [0 1] /N 1 /C0 [0 0 0] /C1 [1 1 1] >>]", "[/DeviceN [/A /B] /DeviceRGB << /FunctionType 2 /Domain [0 1] /N 1 /C0 [0 0 0] /C1 [1 1 1] >>]"] {
+        let p = pdf::parser::parse(src.as_bytes(), &NoResolve, pdf::parser::ParseFlags::ANY).unwrap();
+        let cs = ColorSpace::from_primitive(p, &NoResolve).unwrap();
+        let w = cs.to_primitive(&mut NoUpdate);
+        println!("{} -> written: {:?}", src, short(w.as_ref().map(|p| p.to_string()).map_err(|e| pdf::error::PdfError::Other { msg: e.to_string() })));
+        bad |= w.is_err();
+    }
+    bad
+}
 fn w_crypt_keylen() -> bool {
     let enc = "<< /Filter /Standard /V 2 /R 3 /Length 0 /P -1 /O (01234567890123456789012345678901) /U (01234567890123456789012345678901) >>";
     let data = mkpdf(&[(1, CATALOG), (2, PAGES), (3, PAGE), (9, enc)], "/Encrypt 9 0 R /ID [(abcdefghijklmnop) (abcdefghijklmnop)]");
@@ -756,6 +769,7 @@ fn main() {
         ("page_count_overflow", w_page_count_overflow),
         ("objstm_offset_overflow", w_objstm_offset_overflow),
         ("crypt_keylen", w_crypt_keylen),
+        ("colorspace_function_write", w_colorspace_function_write),
         ("ps_roll", w_ps_roll),
         ("ps_parse", w_ps_parse),
         ("sampled_short", w_sampled_short),
